@@ -31,7 +31,7 @@ const c08wPoison = 1000
 
 // values of a cell of the float-based aggregates (SUM, AVG, VAR, STDDEV go
 // through float64, which the executor handles concretely only): index 0 = NULL
-var c08wVals = [5]int64{0, 0, 1, 4, -2}
+var c08wVals = [5]int64{0, 1, 4, 0, -2}
 
 type c08wPart struct {
 	buf    sql.WindowBuffer
@@ -41,12 +41,11 @@ type c08wPart struct {
 }
 
 const (
-	c08wCellsPicked   = iota // NULL or one of c08wVals (concrete selector)
-	c08wCellsSymbolic        // NULL (symbolic flag) or a full-range symbolic int64
-	c08wCellsNullOnly        // NULL (concrete selector) or a full-range symbolic int64 (value never inspected)
+	c08wCellsPicked   = iota // NULL or one of the first nvals-1 values of c08wVals (concrete selector)
+	c08wCellsNullPick        // NULL (concrete selector) or a full-range symbolic int64
 )
 
-func c08wSetup(tag string, cells int) c08wPart {
+func c08wSetup(tag string, cells, nvals int) c08wPart {
 	L := nd.Bound(4, 5)
 	ps := nd.IntRange(tag+".ps", 0, L)
 	pe := nd.IntRange(tag+".pe", ps, L)
@@ -60,10 +59,8 @@ func c08wSetup(tag string, cells int) c08wPart {
 		} else {
 			switch cells {
 			case c08wCellsPicked:
-				k := nd.Pick(name, nd.Bound(4, 5))
+				k := nd.Pick(name, nvals)
 				p.v[r], p.null[r] = c08wVals[k], k == 0
-			case c08wCellsSymbolic:
-				p.v[r], p.null[r] = nd.Int64(name), nd.Bool(name+".null")
 			default:
 				p.v[r], p.null[r] = nd.Int64(name), nd.Pick(name+".null", 2) == 1
 			}
@@ -177,7 +174,7 @@ func (n *c08wNoValue) assert(tag string) {
 // frame holds no non-NULL cell.
 func VerifC08WinSumFrames() {
 	const tag = "c08.wsum"
-	p := c08wSetup(tag, c08wCellsPicked)
+	p := c08wSetup(tag, c08wCellsPicked, nd.Bound(4, 5))
 	nv := &c08wNoValue{true, true}
 	c08wRun(tag, NewSumAgg(c08X()), p, func(iv sql.WindowInterval, res interface{}, err error) {
 		nd.Assert(tag+".no-error", err == nil)
@@ -196,7 +193,7 @@ func VerifC08WinSumFrames() {
 // AVG(x) OVER (frame): sum / number of the non-NULL cells; NULL when there is none.
 func VerifC08WinAvgFrames() {
 	const tag = "c08.wavg"
-	p := c08wSetup(tag, c08wCellsPicked)
+	p := c08wSetup(tag, c08wCellsPicked, nd.Bound(4, 5))
 	nv := &c08wNoValue{true, true}
 	c08wRun(tag, NewAvgAgg(c08X()), p, func(iv sql.WindowInterval, res interface{}, err error) {
 		nd.Assert(tag+".no-error", err == nil)
@@ -217,7 +214,7 @@ func VerifC08WinAvgFrames() {
 func VerifC08WinCountFrames() {
 	const tag = "c08.wcount"
 	star := nd.Pick(tag+".star", 2) == 1
-	p := c08wSetup(tag, c08wCellsNullOnly)
+	p := c08wSetup(tag, c08wCellsNullPick, 0)
 	var e sql.Expression = c08X()
 	if star {
 		e = expression.NewStar()
@@ -237,7 +234,7 @@ func VerifC08WinCountFrames() {
 func VerifC08WinMinMaxFrames() {
 	const tag = "c08.wminmax"
 	max := nd.Pick(tag+".max", 2) == 1
-	p := c08wSetup(tag, c08wCellsSymbolic)
+	p := c08wSetup(tag, c08wCellsNullPick, 0)
 	var fn sql.WindowFunction = NewMinAgg(c08X())
 	if max {
 		fn = NewMaxAgg(c08X())
@@ -256,7 +253,7 @@ func VerifC08WinMinMaxFrames() {
 func VerifC08WinFirstLastFrames() {
 	const tag = "c08.wedge"
 	last := nd.Pick(tag+".last", 2) == 1
-	p := c08wSetup(tag, c08wCellsSymbolic)
+	p := c08wSetup(tag, c08wCellsNullPick, 0)
 	var fn sql.WindowFunction = NewFirstAgg(c08X())
 	if last {
 		fn = NewLastAgg(c08X())
@@ -299,7 +296,7 @@ func VerifC08WinFirstLastFrames() {
 func VerifC08WinVarStdFrames() {
 	const tag = "c08.wvar"
 	kind := nd.Pick(tag+".kind", 4)
-	p := c08wSetup(tag, c08wCellsPicked)
+	p := c08wSetup(tag, c08wCellsPicked, nd.Bound(3, 5))
 	var fn sql.WindowFunction
 	switch kind {
 	case 0:
